@@ -26,6 +26,13 @@ type callResult struct {
 func withWatchdog(f func() (any, error)) callResult {
 	ch := make(chan callResult, 1)
 	go func() {
+		// a stub that panics on the caller's goroutine — or a remote handed out by the library whose function fields
+		// are nil — is an outcome to judge, not the end of the harness
+		defer func() {
+			if e := recover(); e != nil {
+				ch <- callResult{true, nil, fmt.Errorf("PANIC on the caller's goroutine (a stub that panics, or a nil function field in the remote the library handed out): %v", e)}
+			}
+		}()
 		v, err := f()
 		ch <- callResult{true, v, err}
 	}()
